@@ -125,16 +125,18 @@ Definition ex_data : dataset toy :=
      d_matches := Some [(t_of "kp", [(t_of "a b/img 1.jpg", t_of "img0.jpg")])];
      d_p3d := Some (3%nat, [[Fz 1; Fz 2; Fz 3]]) |}.
 
+(* observations on a load result, computed entirely by vm_compute *)
+Definition loaded_p3d {O} (r : result (dataset O)) : option (nat * table O) :=
+  match r with Ok d' => d_p3d O d' | Err => None end.
+Definition loaded_tab {O} (r : result (dataset O)) (f : tfile) : option (option (table O)) :=
+  match r with Ok d' => Some (d_tab O d' f) | Err => None end.
+
 Example C01_example : fops_ok toy /\ wf toy ex_data = true /\
-  exists d', load toy (save toy ex_data) = Ok d' /\ d_p3d toy d' = Some (3%nat, [[Fz 1; Fz 2; Fz 3]]) /\
-             d_tab toy d' FTraj = Some [[CInt (-3); S "cam0"; Fz 1; Fz 0; Fz 0; Fz 0; Fz (-7); Fz 8; Fz 9];
-                                        [CInt 5; S "rig"; CNone; CNone; CNone; CNone; Fz 1; Fz 2; Fz 3]].
-Proof.
-  split; [exact toy_ok|]. split; [vm_compute; reflexivity|].
-  assert (W : wf toy ex_data = true) by (vm_compute; reflexivity).
-  destruct (C01_load_save toy toy_ok ex_data W) as [d' [E [T [P _]]]]. exists d'. split; [exact E|].
-  rewrite P, T. split; vm_compute; reflexivity.
-Qed.
+  loaded_p3d (load toy (save toy ex_data)) = Some (3%nat, [[Fz 1; Fz 2; Fz 3]]) /\
+  loaded_tab (load toy (save toy ex_data)) FTraj =
+    Some (Some [[CInt (-3); S "cam0"; Fz 1; Fz 0; Fz 0; Fz 0; Fz (-7); Fz 8; Fz 9];
+                [CInt 5; S "rig"; CNone; CNone; CNone; CNone; Fz 1; Fz 2; Fz 3]]).
+Proof. split; [exact toy_ok|]. repeat split; vm_compute; reflexivity. Qed.
 
 (* --- the behaviour before the repairs is refuted (fixes/C01-roundtrip-empty-parts.patch):
        (a) an empty XYZ-only point cloud came back with 6 columns (points3d_from_file tested the first line
@@ -146,13 +148,13 @@ Definition only_sensors_and (p3d : option (nat * table toy)) (gnss : option (tab
 
 Lemma C01_legacy_refuted :
   (exists d, wf toy d = true /\ d_p3d toy d = Some (3%nat, []) /\
-             exists d', load_legacy toy (save toy d) = Ok d' /\ d_p3d toy d' = Some (6%nat, [])) /\
+             loaded_p3d (load_legacy toy (save toy d)) = Some (6%nat, []) /\
+             loaded_p3d (load toy (save toy d)) = Some (3%nat, [])) /\
   (exists d, wf toy d = true /\ d_tab toy d (FRec RGnss) = Some [] /\
-             exists d', load_legacy toy (save toy d) = Ok d' /\ d_tab toy d' (FRec RGnss) = None).
+             loaded_tab (load_legacy toy (save toy d)) (FRec RGnss) = Some None /\
+             loaded_tab (load toy (save toy d)) (FRec RGnss) = Some (Some [])).
 Proof.
   split.
-  - exists (only_sensors_and (Some (3%nat, [])) None). split; [vm_compute; reflexivity|]. split; [reflexivity|].
-    eexists. split; [vm_compute; reflexivity|]. reflexivity.
-  - exists (only_sensors_and None (Some [])). split; [vm_compute; reflexivity|]. split; [reflexivity|].
-    eexists. split; [vm_compute; reflexivity|]. reflexivity.
+  - exists (only_sensors_and (Some (3%nat, [])) None). repeat split; vm_compute; reflexivity.
+  - exists (only_sensors_and None (Some [])). repeat split; vm_compute; reflexivity.
 Qed.
